@@ -15,7 +15,10 @@ def checkAnnotated (allPreds : List String) : List (String × String) → Option
     if CHECKED.contains a && !allPreds.contains p then some (a, p) else checkAnnotated allPreds rest
 
 /-- `CheckDistinctConsistency` over the (predicate, distinct?) pairs of the rules in order: the first
-predicate with a rule that disagrees with the earlier rules of the same predicate -/
+predicate with a rule that disagrees with the earlier rules of the same predicate.  (For programs coming from
+text the parser's multi-body-aggregation rewrite performs a check of its own first when an earlier rule of the
+predicate is distinct-denoted, and the annotation check runs before this one: the correspondence of C19
+compares the existence of a report and the membership of the named predicate, not the choice among several.) -/
 def checkDistinct : List (String × Bool) → List (String × Bool) → Option String
   | _, [] => none
   | seen, (p, d) :: rest =>
